@@ -1,6 +1,8 @@
 INIT Init
 NEXT Next
-CONSTANTS Cap = 1
+CONSTANTS
+  Cap = 1
+  Strict = FALSE
 CONSTRAINT HW
 POSTCONDITION Post
 CHECK_DEADLOCK FALSE
